@@ -236,12 +236,11 @@ func subC17System(arg string) string {
 	var responders []p2p.P2PInterface
 	var rmu sync.Mutex
 	dropped := map[string]bool{}
-	for i := 0; i < npeers; i++ {
+	startResponder := func(i int) p2p.P2PInterface {
 		id := fmt.Sprintf("peer%d", i)
 		port := freePort()
 		addrs[id] = "127.0.0.1:" + port
 		s := startServer(id, port, &staticMembers{addrs: map[string]string{"a": "127.0.0.1:" + pa}})
-		responders = append(responders, s)
 		ch, _ := s.SubscribeMsg(400, vss.Signature{})
 		go func(s p2p.P2PInterface, id string, ch chan p2p.P2PMessage) {
 			for m := range ch {
@@ -266,6 +265,10 @@ func subC17System(arg string) string {
 				}(m)
 			}
 		}(s, id, ch)
+		return s
+	}
+	for i := 0; i < npeers; i++ {
+		responders = append(responders, startResponder(i))
 	}
 	// the special peers
 	var silentLn net.Listener
@@ -314,9 +317,23 @@ func subC17System(arg string) string {
 	if fault == "peer-closes" {
 		closeAt = nreq / 2
 	}
+	restartAt := -1
+	if fault == "peer-restarts" {
+		restartAt = nreq / 2
+	}
 	for i := 0; i < nreq; i++ {
 		if i == closeAt {
 			responders[0].Leave()
+		}
+		if i == restartAt {
+			// every request so far has returned; the peer goes away (it closes the connections it holds)
+			// and comes back under the same id at a new address; requests made afterwards - to it and
+			// to the others - must be served
+			wg.Wait()
+			responders[0].Leave()
+			time.Sleep(400 * time.Millisecond)
+			responders[0] = startResponder(0)
+			time.Sleep(50 * time.Millisecond)
 		}
 		wg.Add(1)
 		go func(i int) {
@@ -359,7 +376,7 @@ func subC17System(arg string) string {
 				rmu.Lock()
 				wasDropped := dropped[tag]
 				rmu.Unlock()
-				if !cancelled && !wasDropped && fault == "none" {
+				if !cancelled && !wasDropped && (fault == "none" || fault == "peer-restarts") {
 					note(fmt.Sprintf("request %s to %s was answered but returned the error %v", tag, peer, err))
 				}
 				if !cancelled && !wasDropped && (fault == "refused" || fault == "silent") {
@@ -433,10 +450,12 @@ func genC17(rng *hx.Rng, tier string, w *hx.Writer) error {
 			add(fmt.Sprintf("n=%d,peers=%d,drop=15,cancel=15,fault=none,seed=%d", n, peers, seed), "f:drop+cancel", fmt.Sprintf("n:%d", n))
 		}
 	}
-	for _, f := range []string{"peer-closes", "refused", "silent"} {
+	for _, f := range []string{"peer-closes", "refused", "silent", "peer-restarts"} {
 		seed++
 		add(fmt.Sprintf("n=30,peers=3,drop=0,cancel=0,fault=%s,seed=%d", f, seed), "f:"+f)
 	}
+	seed++
+	add(fmt.Sprintf("n=8,peers=1,drop=0,cancel=0,fault=peer-restarts,seed=%d", seed), "f:peer-restarts")
 	runC12Jobs(jobs, w)
 	return nil
 }
